@@ -31,7 +31,8 @@ const (
 	c11Name     = "name-accessor-unescapes-eq-quote"
 	c11Order    = "tag-order-escaped-bytes"
 	// finding of this property
-	kComment = "comment-swallows-following-lines"
+	kComment  = "comment-swallows-following-lines"
+	kEmptyKey = "empty-field-key-after-tab-or-nul"
 
 	errPrefix = "unable to parse '"
 	errSep    = "': "
@@ -71,6 +72,11 @@ func checkPoint(p models.Point) (key, detail string) {
 		return "fields-unreadable", fmt.Sprintf("point %q: Fields(): %v", p.String(), err)
 	}
 	if len(fs) == 0 {
+		// signature of the known finding: the field section starts with '=' (empty first field key)
+		if fi := p.FieldIterator(); fi.Next() && len(fi.FieldKey()) == 0 && ev.KnownOpen("C12", kEmptyKey) {
+			rec.ExcludedKnown(kEmptyKey)
+			return "", ""
+		}
 		return "no-field", fmt.Sprintf("point %q has no field", p.String())
 	}
 	n := 0
@@ -278,3 +284,5 @@ func checkArbitrary(data []byte, prec string) (o outcome) {
 	}
 	return
 }
+
+func timeUnit(prec string) time.Duration { return time.Duration(lpgen.Mult(prec)) }
